@@ -159,3 +159,17 @@ CHECKS["C03"] = dict(
          "the entry point, and loading hex/srec/elf/wdc/uf2 back with naken_util must print the same bytes.",
     note="Contiguous formats are only asked for spans below 1 MiB; a missing S-record termination record is tolerated; amiga and macho are only "
          "checked for carrying the low..high bytes in order; read-back is not judged within 256 bytes of the top of the address space.")
+
+CHECKS["C20"] = dict(
+    level="model_checking", design_ref="DESIGN.md 4/C20",
+    technique="exhaustive enumeration of call graphs x program reference sets x object containers and layouts, crafted ELF32/ar inputs written by "
+              "the harness, real assembler/linker against a link reference model",
+    text="Every call graph among one to three functions (each calling any subset of the others), every ordered selection of up to two of them "
+         "called by the program, in a single .o, two .o files, an ar archive with and without symbol index, with six layout variants (section "
+         "order, unrelated code before the functions, local labels in the program, intra-object calls relocated against the section symbol), for "
+         "mips32, pic32, ps2_ee and big-endian mips, is linked by naken_asm and compared word for word with the link model (each referenced "
+         "function appended once after the program in discovery order, every jal field = final address >> 2, unreferenced functions absent, "
+         "symbol table = placement); unresolved symbols (direct and transitive), non-ELF, unsupported-CPU and missing files must be errors "
+         "without an output file.",
+    note="Objects are written by the harness's own ELF32/ar writers (from the specifications), not by a compiler; a big-endian object may be "
+         "refused as unsupported (then it must be an error).")
